@@ -380,8 +380,8 @@ fn run_case(c: &Case) -> serde_json::Value {
                 let (b, d) = (sh.built.load(Ordering::SeqCst), sh.dropped.load(Ordering::SeqCst));
                 if b > 0 && b == d {
                     let t = *all_dead_since.get_or_insert_with(Instant::now);
-                    if t.elapsed() > Duration::from_secs(2) {
-                        println!("{}", json!({"status": "violation", "key": "hang", "msg": format!("run() has not returned 2 s after every worker was gone (all {b} decoders built have been dropped): the collector is blocked"), "classes": ["injection"], "nontrivial": true}));
+                    if t.elapsed() > Duration::from_secs(4) {
+                        println!("{}", json!({"status": "violation", "key": "hang", "msg": format!("run() has not returned 4 s after every worker was gone (all {b} decoders built have been dropped): the collector is blocked"), "classes": ["injection"], "nontrivial": true}));
                         std::process::exit(3);
                     }
                 } else {
@@ -552,7 +552,7 @@ pub fn property() -> Property {
             }),
             Box::new(Sub {
                 name: "fault-injection",
-                rule: "failure-injecting configurations, each in a child process with a witness monitor: puncturing pattern that does not divide n (stage returns an error), interleaver columns / 8PSK symbol size that do not divide the transmitted length (stage panics in every worker), scripted decoder panicking in all / some workers at a generated frame (in 40 % of these every frame takes 30 ms, so that the surviving workers are mid-frame when the fault is noticed); required: run() returns (Err for the block-size cases; Err, or statistics satisfying all identities, when only some workers died), does not itself panic, 'finished' is delivered once and last, every decoder built has been dropped at the very moment run() returns (all workers joined); a hang is a violation only with a positive witness (every decoder built has been dropped and run() has not returned 2 s later, or the final report of the last point was seen and run() has not returned 10 s later); a bare 60 s watchdog expiry is inconclusive (exit 2)",
+                rule: "failure-injecting configurations, each in a child process with a witness monitor: puncturing pattern that does not divide n (stage returns an error), interleaver columns / 8PSK symbol size that do not divide the transmitted length (stage panics in every worker), scripted decoder panicking in all / some workers at a generated frame (in 40 % of these every frame takes 30 ms, so that the surviving workers are mid-frame when the fault is noticed); required: run() returns (Err for the block-size cases; Err, or statistics satisfying all identities, when only some workers died), does not itself panic, 'finished' is delivered once and last, every decoder built has been dropped at the very moment run() returns (all workers joined); a hang is a violation only with a positive witness (every decoder built has been dropped and run() has not returned 4 s later, or the final report of the last point was seen and run() has not returned 10 s later); a bare 60 s watchdog expiry is inconclusive (exit 2)",
                 cases: |t| t.pick(200, 5_000),
                 strategy: inject_strategy,
                 check,
